@@ -149,6 +149,12 @@ class Gen:
         # new computed value
         return self.arith(scope, ind)
 
+    def forget(self, scope):
+        """Control flow / a call follows: the setups seen so far no longer *really* precede what comes next.  They still dominate it,
+        so a (hostile) input may name one of them as its input state: kept as stale candidates."""
+        scope.setdefault("stale", {}).update(scope["states"])
+        scope["states"].clear()
+
     def pick_recent(self, scope):
         """A value for a conditional's result: half of the time one of the most recently defined ones (so that nested regions use
         values defined shortly before the region op)."""
@@ -194,7 +200,7 @@ class Gen:
         (the other arm, or both at a deeper level, stay clean): whatever was known before the loop must be forgotten after it, and
         only executions that take the clobbering arm can tell."""
         rng = self.rng
-        scope["states"].clear()
+        self.forget(scope)
         li = len(self.loops)
         nm = f"%ub{li}"
         self.args.append(ArgSpec(nm, "index", "ub", li))
@@ -210,7 +216,7 @@ class Gen:
         deep = rng.random() < 0.3
         self.emit(ind, f"scf.for {iv} = {lo} to {nm} step {st} {{")
         self.emit(ind + 1, f"scf.if {c} {{")
-        inner = {"i32": list(scope["i32"]), "index": list(scope["index"]) + [iv], "states": {}}
+        inner = {"i32": list(scope["i32"]), "index": list(scope["index"]) + [iv], "states": {}, "stale": dict(scope.get("stale", {}))}
 
         def clobber(i2):
             if deep:
@@ -280,10 +286,15 @@ class Gen:
         s = self.fresh("s")
         params = ", ".join(f'"{f}" = {v} : i32' for f, v in zip(fields, vals))
         prev = scope["states"].get(acc)
+        stale = scope.get("stale", {}).get(acc)
         if prev is not None and self.profile == "trace" and rng.random() < 0.35:
             # partially pre-threaded input: this setup already names the setup that really precedes it in this block
             self.emit(ind, f'{s} = accfg.setup "{acc}" from {prev} to ({params}) : !accfg.state<"{acc}">')
             self.features.add("pre-threaded")
+        elif prev is None and stale is not None and self.profile == "trace" and rng.random() < 0.3:
+            # stale link: names a dominating setup although control flow / a call / an enclosing region lies in between
+            self.emit(ind, f'{s} = accfg.setup "{acc}" from {stale} to ({params}) : !accfg.state<"{acc}">')
+            self.features.add("stale-pre-threaded")
         else:
             self.emit(ind, f'{s} = accfg.setup "{acc}" to ({params}) : !accfg.state<"{acc}">')
         scope["states"][acc] = s
@@ -320,7 +331,7 @@ class Gen:
 
     def loop(self, ind, scope, depth):
         rng = self.rng
-        scope["states"].clear()
+        self.forget(scope)
         li = len(self.loops)
         lb = self.index_source("lb", li, [0, 0, 0, 1, 3])
         step = self.index_source("step", li, [1, 1, 1, 2, 3])
@@ -345,7 +356,7 @@ class Gen:
         lbv, ubv, stv = mat(lb), mat(ub), mat(step)
         iv = self.fresh("iv")
         carried = rng.random() < 0.35
-        inner = {"i32": list(scope["i32"]), "index": list(scope["index"]) + [iv], "states": {}}
+        inner = {"i32": list(scope["i32"]), "index": list(scope["index"]) + [iv], "states": {}, "stale": dict(scope.get("stale", {}))}
         self.skel.append("F(")
         if lb != ("const", 0):
             self.features.add("lb!=0")
@@ -386,11 +397,17 @@ class Gen:
             self.features.add("relaunch-after-clobber-in-loop")
         if carried:
             nxts = []
-            for p in ps:
-                nxt = self.fresh()
-                other = rng.choice(inner["i32"])
-                self.emit(ind + 1, f"{nxt} = arith.addi {p}, {other} : i32")
-                nxts.append(nxt)
+            if ncar >= 2 and rng.random() < 0.4:
+                # ping-pong: the carried values are handed on rotated, the yield operands are block arguments themselves
+                k = rng.randrange(1, ncar)
+                nxts = ps[k:] + ps[:k]
+                self.features.add("carried-values-rotated")
+            else:
+                for p in ps:
+                    nxt = self.fresh()
+                    other = rng.choice(inner["i32"])
+                    self.emit(ind + 1, f"{nxt} = arith.addi {p}, {other} : i32")
+                    nxts.append(nxt)
             self.emit(ind + 1, f"scf.yield {', '.join(nxts)} : {', '.join(['i32'] * ncar)}")
             self.emit(ind, "}")
             scope["i32"].extend(ress)
@@ -402,7 +419,7 @@ class Gen:
     def cond(self, ind, scope, depth, in_loop):
         rng = self.rng
         self.ifs += 1
-        scope["states"].clear()
+        self.forget(scope)
         r = rng.random()
         if in_loop and scope["index"] and r < 0.4:
             iv = rng.choice(scope["index"])
@@ -424,8 +441,8 @@ class Gen:
         with_res = rng.random() < 0.3
         has_else = with_res or rng.random() < 0.7
         self.skel.append("I(")
-        then_scope = {"i32": list(scope["i32"]), "index": list(scope["index"]), "states": {}}
-        else_scope = {"i32": list(scope["i32"]), "index": list(scope["index"]), "states": {}}
+        then_scope = {"i32": list(scope["i32"]), "index": list(scope["index"]), "states": {}, "stale": dict(scope.get("stale", {}))}
+        else_scope = {"i32": list(scope["i32"]), "index": list(scope["index"]), "states": {}, "stale": dict(scope.get("stale", {}))}
         if with_res:
             nres = rng.choice([1, 1, 2, 3])
             if nres > 1:
@@ -455,7 +472,7 @@ class Gen:
     def call(self, ind, scope):
         rng = self.rng
         self.calls += 1
-        scope["states"].clear()
+        self.forget(scope)
         kind = rng.choice(["none", "none", "full", "unannotated", "unannotated"])
         arg = rng.choice(scope["i32"])
         vid = self.new_vid()
